@@ -13,10 +13,10 @@ type Sexp struct {
 	IsL  bool
 }
 
-func A(s string) *Sexp        { return &Sexp{Atom: s} }
-func L(items ...*Sexp) *Sexp  { return &Sexp{List: items, IsL: true} }
-func hx(b []byte) string      { return "x" + hex.EncodeToString(b) }
-func hxs(s string) string     { return hx([]byte(s)) }
+func A(s string) *Sexp       { return &Sexp{Atom: s} }
+func L(items ...*Sexp) *Sexp { return &Sexp{List: items, IsL: true} }
+func hx(b []byte) string     { return "x" + hex.EncodeToString(b) }
+func hxs(s string) string    { return hx([]byte(s)) }
 func unhx(s string) ([]byte, error) {
 	if !strings.HasPrefix(s, "x") {
 		return nil, fmt.Errorf("not hex: %q", s)
